@@ -340,6 +340,18 @@ def derive(how, src, arg, pool, i):
             return ok, res, P
         if how in ("slice", "copy"):  # take a member out: shares by design -> not a derivation
             return True, NotImplemented, P
+        if how in ("sum1", "add", "radd0"):
+            # the sum of the members is arithmetic: a histogram of its own, also for a single member
+            if not len(src.histograms):
+                return True, NotImplemented, P
+            ok, res = attempt(src.sum)
+            return ok, res, P
+        if how in ("normalize", "partial_normalize"):
+            if any(not m.total > 0 for m in src.histograms):
+                return True, NotImplemented, P
+            with np.errstate(all="ignore"):
+                ok, res = attempt(src.normalize_all if how == "normalize" else src.normalize_bins)
+            return ok, res, P
         return True, NotImplemented, P
     if how == "copy":
         ok, res = attempt(src.copy)
